@@ -153,10 +153,14 @@ class SubsetGroup(HubListener):
         self.subsets.append(s)
 
     def _remove_data(self, data):
-        # remove a data object from group
+        # remove a data object from group: the grouped subset is dropped from
+        # the group and detached from the dataset, so that a dataset that is
+        # no longer in the collection does not keep stale grouped subsets
+        # (which would be duplicated if the dataset is added back later)
         for s in list(self.subsets):
             if s.data is data:
                 self.subsets.remove(s)
+                s.delete()
 
     def register_to_hub(self, hub):
 
